@@ -3,4 +3,27 @@ package main
 // exceptionTable: single named constructs (rule|construct) with the reason why a report there is
 // infeasible or outside the property's quantifier.  Never used for genuine defects (those are
 // fixed or listed in /verif/known_findings.json).
-var exceptionTable = map[string]string{}
+var exceptionTable = map[string]string{
+	// R3.3 — RPC-only repo surgery
+	"R3.3|datastore.FlattenMetadata:repoT.alias": "RPC-only admin command (push / flatten / limit-versions) working on a duplicated or received repo object that is registered afterwards or written to a separate store; RPC histories are outside the HTTP API histories C03 quantifies over",
+	"R3.3|datastore.FlattenMetadata:repoT.description": "RPC-only admin command (push / flatten / limit-versions) working on a duplicated or received repo object that is registered afterwards or written to a separate store; RPC histories are outside the HTTP API histories C03 quantifies over",
+	"R3.3|datastore.FlattenMetadata:repoT.log": "RPC-only admin command (push / flatten / limit-versions) working on a duplicated or received repo object that is registered afterwards or written to a separate store; RPC histories are outside the HTTP API histories C03 quantifies over",
+	"R3.3|datastore.FlattenMetadata:nodeT.note": "RPC-only admin command (push / flatten / limit-versions) working on a duplicated or received repo object that is registered afterwards or written to a separate store; RPC histories are outside the HTTP API histories C03 quantifies over",
+	"R3.3|datastore.FlattenMetadata:nodeT.log": "RPC-only admin command (push / flatten / limit-versions) working on a duplicated or received repo object that is registered afterwards or written to a separate store; RPC histories are outside the HTTP API histories C03 quantifies over",
+	"R3.3|datastore.FlattenMetadata:nodeT.branch": "RPC-only admin command (push / flatten / limit-versions) working on a duplicated or received repo object that is registered afterwards or written to a separate store; RPC histories are outside the HTTP API histories C03 quantifies over",
+	"R3.3|datastore.LimitVersions:dagT.nodes": "RPC-only admin command (push / flatten / limit-versions) working on a duplicated or received repo object that is registered afterwards or written to a separate store; RPC histories are outside the HTTP API histories C03 quantifies over",
+	"R3.3|datastore.LimitVersions:nodeT.parents": "RPC-only admin command (push / flatten / limit-versions) working on a duplicated or received repo object that is registered afterwards or written to a separate store; RPC histories are outside the HTTP API histories C03 quantifies over",
+	"R3.3|datastore.LimitVersions:nodeT.children": "RPC-only admin command (push / flatten / limit-versions) working on a duplicated or received repo object that is registered afterwards or written to a separate store; RPC histories are outside the HTTP API histories C03 quantifies over",
+	"R3.3|(*datastore.repoT).remapLocalIDs:nodeT.version": "RPC-only admin command (push / flatten / limit-versions) working on a duplicated or received repo object that is registered afterwards or written to a separate store; RPC histories are outside the HTTP API histories C03 quantifies over",
+	"R3.3|(*datastore.repoT).remapLocalIDs:dagT.nodes": "RPC-only admin command (push / flatten / limit-versions) working on a duplicated or received repo object that is registered afterwards or written to a separate store; RPC histories are outside the HTTP API histories C03 quantifies over",
+	"R3.3|(*datastore.pusher).readRepo:repoT.id": "RPC-only admin command (push / flatten / limit-versions) working on a duplicated or received repo object that is registered afterwards or written to a separate store; RPC histories are outside the HTTP API histories C03 quantifies over",
+	"R3.3|(*datastore.pusher).readRepo:Data.rootUUID": "RPC-only admin command (push / flatten / limit-versions) working on a duplicated or received repo object that is registered afterwards or written to a separate store; RPC histories are outside the HTTP API histories C03 quantifies over",
+	"R3.3|(*datastore.repoT).remapLocalIDs:Data.id": "RPC-only admin command (push / flatten / limit-versions) working on a duplicated or received repo object that is registered afterwards or written to a separate store; RPC histories are outside the HTTP API histories C03 quantifies over",
+	// R12.2 — stores into the label counters that are not allocations:
+	"R12.2|(*datatype/labelmap.Data).CopyPropertiesFrom:MaxRepoLabel": "copy constructor: fills a destination instance that is not yet published; the copy operation saves the instance afterwards (out of the quantifier: no allocation is served from it meanwhile)",
+	"R12.2|(*datatype/labelmap.Data).CopyPropertiesFrom:NextLabel":    "copy constructor, see MaxRepoLabel",
+	"R12.2|(*datatype/labelmap.Data).CopyPropertiesFrom:MaxLabel":     "copy constructor, see MaxRepoLabel",
+	"R12.2|(*datatype/labelmap.Data).loadLabelIDs:MaxRepoLabel":       "start-up loader: rebuilds the counters from the persisted keys before the instance serves requests; nothing new to persist, no concurrent allocator yet",
+	"R12.2|(*datatype/labelmap.Data).loadLabelIDs:NextLabel":          "start-up loader, see MaxRepoLabel",
+	"R12.2|(*datatype/labelmap.Data).loadLabelIDs:MaxLabel":           "start-up loader, see MaxRepoLabel",
+}
